@@ -393,7 +393,7 @@ def _unordered_pair_err(a, b):
     return min(e1, e2)
 
 
-RESC_FUNCS = ["coords", "distance", "segment", "tangent", "origin_to", "polygon", "image", "tangent_iso", "angle"]
+RESC_FUNCS = ["coords", "distance", "segment", "tangent", "origin_to", "polygon", "image", "tangent_iso", "angle", "segment_ideal", "tangent_unit"]
 
 
 def rescale_cases(dims, seed, quick):
@@ -419,6 +419,25 @@ def rescale_cases(dims, seed, quick):
                 if n >= 2:
                     yield {"f": "tangent", "n": n, "pts": [i, j], "lam": list(lam)}
                     yield {"f": "image", "n": n, "pts": [i, j], "lam": list(lam)}
+        # segments with one (or two) IDEAL endpoints: index -1-k refers to the k-th ideal direction
+        nid = len(lattice.ideal_dirs(n, 2, seed)) if n >= 1 else 0
+        for i in sub[:5]:
+            for k in range(min(nid, 3)):
+                for lam in itertools.product(LAM, repeat=2):
+                    if lam == (1.0, 1.0):
+                        continue
+                    yield {"f": "segment_ideal", "n": n, "pts": [i, -1 - k], "lam": list(lam)}
+                    yield {"f": "segment_ideal", "n": n, "pts": [-1 - k, i], "lam": list(lam)}
+        for k in range(min(nid, 3) - 1):
+            for lam in itertools.product(LAM, repeat=2):
+                if lam != (1.0, 1.0):
+                    yield {"f": "segment_ideal", "n": n, "pts": [-1 - k, -2 - k], "lam": list(lam)}
+        # a tangent vector is ONE unit of two rows: rescaling the whole unit (negative factors included), or moving it
+        # by an isometry stored as -M, must not change where it points
+        if n >= 2:
+            for (i, j) in pairs[::4]:
+                for l in LAM[1:]:
+                    yield {"f": "tangent_unit", "n": n, "pts": [i, j], "lam": [l]}
         triples = [(i, j, k) for i in sub[:6] for j in sub[:6] for k in sub[:6] if len({i, j, k}) == 3]
         if quick:
             triples = triples[::7]
@@ -487,6 +506,29 @@ def _geom(f, n, K, lam, seed, quick):
         iso = H.Point(_proj(K[1], 1.0)).origin_to() @ H.Isometry.standard_loxodromic(n, 1.7)
         out["image"] = ("abs", (iso @ H.Point(X[0])).coords("klein"))
         out["image-pair"] = ("abs", (iso @ H.PointPair(H.Point(X[0]), H.Point(X[1]))).coords("klein"))
+    elif f == "segment_ideal":
+        s_ = H.Segment(H.Point(X[0]), H.Point(X[1]))
+        out["ideal"] = ("pair", s_.ideal_endpoint_coords("projective"))
+        s2 = H.Segment(np.stack([X[0], X[1]]))
+        out["ideal-from-array"] = ("pair", s2.ideal_endpoint_coords("projective"))
+        out["ideal-klein"] = ("pair", s_.ideal_endpoint_coords("klein"))
+        if n == 2:
+            c, r, th = s_.circle_parameters(degrees=False, model="poincare")
+            if np.isfinite(r) and r < 1e3:
+                out["circle-poincare"] = ("abs6", np.concatenate([np.ravel(c), np.ravel(r)]))
+    elif f == "tangent_unit":
+        p, q = H.Point(_proj(K[0], 1.0)), H.Point(_proj(K[1], 1.0))
+        data = np.array(p.unit_tangent_towards(q).proj_data, dtype=float)          # (2, n+1): point row, vector row
+        tv = H.TangentVector(lam[0] * data)
+        for t in (0.7, -0.4):
+            out["point_along(%s)" % t] = ("abs", tv.point_along(t).coords("klein"))
+        test = H.Point(np.array([_proj(k, 1.0) for k in _pts(n, seed, True)[:6]]))
+        out["origin_to-action"] = ("abs", (tv.origin_to() @ test).coords("klein"))
+        # the same tangent vector moved by an isometry given as M and as lam*M (the same projective map)
+        g = H.Point(_proj(K[1], 1.0)).origin_to() @ H.Isometry.standard_rotation(0.9, dimension=n)
+        g2 = H.Isometry(lam[0] * np.array(g.proj_data, dtype=float))
+        moved = g2 @ H.TangentVector(data.copy())
+        out["moved-point_along"] = ("abs", moved.point_along(0.6).coords("klein"))
     elif f == "angle":
         p = H.Point(X[0])
         a = p.unit_tangent_towards(H.Point(X[1])).angle(p.unit_tangent_towards(H.Point(X[2])))
@@ -504,7 +546,8 @@ def _geom(f, n, K, lam, seed, quick):
 def case_rescale(case):
     f, n, seed, quick = case["f"], case["n"], case.get("seed", 0), case.get("quick", True)
     P = _pts(n, seed, quick)
-    K = [P[i] for i in case["pts"]]
+    I = lattice.ideal_dirs(n, 2, seed)
+    K = [P[i] if i >= 0 else I[-1 - i] for i in case["pts"]]
     lam = case["lam"]
     ref = _geom(f, n, K, [1.0] * len(K), seed, quick)
     got = _geom(f, n, K, lam, seed, quick)
